@@ -49,6 +49,14 @@ def make_branch(kind, cin, cout, i):
         return nn.Identity() if i == 0 else nn.Conv2d(cin, cout, 1)
     if kind == 'dw':
         return nn.Conv2d(cin, cout, 1, groups=cin) if i % 2 == 0 else nn.Conv2d(cin, cout, 1)
+    if kind in ('nested', 'nested_last'):
+        # a branch that itself contains a choice block ('nested': the branch IS the inner block; 'nested_last': the inner block is the last element
+        # of an nn.Sequential); the other branches are plain convolutions
+        from plinio.methods.supernet import SuperNetModule
+        if i % 2 == 0:
+            inner = SuperNetModule([nn.Conv2d(cout, cout, 3, padding=1), nn.Conv2d(cout, cout, 1)])
+            return nn.Sequential(nn.Conv2d(cin, cout, 1), nn.ReLU(), inner) if kind == 'nested_last' else nn.Sequential(nn.Conv2d(cin, cout, 1), inner, nn.ReLU())
+        return nn.Conv2d(cin, cout, 1)
     if kind == 'mix':
         opts = [lambda: nn.Conv2d(cin, cout, 3, padding=1), lambda: nn.Sequential(nn.Conv2d(cin, cout, 1), nn.ReLU()), lambda: nn.Conv2d(cin, cout, 1),
                 lambda: nn.Sequential(nn.Conv2d(cin, cout, 3, padding=1), nn.Conv2d(cout, cout, 1)), lambda: UserBlock(cin, cout, 'layer'),
